@@ -42,6 +42,7 @@ def rowsBpm : List Fx → Nat → Nat
 def Fx.WF : Fx → Prop
   | .speed s => 1 ≤ s
   | .tempo t => 20 ≤ t
+  | .rowdelay _ => False
   | _ => True
 
 def Fx.isJump : Fx → Bool
@@ -90,6 +91,15 @@ theorem scanStep_rowStart (fx : Fx) (st : ScanSt) (hw : fx.WF) :
     simp only [Fx.WF] at hw
     have ht : ¬ t < 20 := by omega
     simp [scanStep, applyFx, ScanSt.rowStart, rowFrames, fxSpeed, fxBpm, Fx.delayOf, ht] <;> grind
+  | rowdelay x => simp [Fx.WF] at hw
+
+/-- **IT row delay** (`SEx`, scan.c:539-544): the scan's clock advances by `(1 + x)` rows at the
+*running* speed and tempo (not the speed recorded when the order was entered). -/
+theorem scanStep_rowStart_rowdelay (x : Nat) (st : ScanSt) :
+    (scanStep (.rowdelay x) st).rowStart = st.rowStart + (1 + x % 16) * st.speed * tick st.bpm ∧
+    (scanStep (.rowdelay x) st).speed = st.speed ∧ (scanStep (.rowdelay x) st).bpm = st.bpm := by
+  refine ⟨?_, rfl, rfl⟩
+  simp [scanStep, applyFx, ScanSt.rowStart] <;> grind
 
 /-! ## `scan_cnt` -/
 
@@ -123,6 +133,95 @@ theorem cntAt_cntInc_eq (c : List (List Nat)) (o r : Nat) (ho : o < c.length) (h
 theorem cntInc_length (c : List (List Nat)) (o r : Nat) : (cntInc c o r).length = c.length := by
   simp [cntInc]
 
+/-- `c[o][r] := v` -/
+def cntSet (c : List (List Nat)) (o r v : Nat) : List (List Nat) := c.set o ((c.getD o []).set r v)
+
+theorem cntSet_length (c : List (List Nat)) (o r v : Nat) : (cntSet c o r v).length = c.length := by
+  simp [cntSet]
+
+theorem cntSet_row_length (c : List (List Nat)) (o r v o' : Nat) :
+    ((cntSet c o r v).getD o' []).length = (c.getD o' []).length := by
+  unfold cntSet
+  by_cases ho : o = o'
+  · subst ho
+    by_cases hl : o < c.length
+    · rw [getD_set_eq _ _ _ _ hl]; simp
+    · have : c.set o ((c.getD o []).set r v) = c := by
+        apply List.set_eq_of_length_le; omega
+      rw [this]
+  · rw [getD_set_ne _ _ _ _ _ ho]
+
+theorem cntAt_cntSet_ne (c : List (List Nat)) (o r v o' r' : Nat) (h : ¬ (o' = o ∧ r' = r)) :
+    cntAt (cntSet c o r v) o' r' = cntAt c o' r' := by
+  unfold cntAt cntSet
+  by_cases ho : o = o'
+  · subst ho
+    by_cases hl : o < c.length
+    · rw [getD_set_eq _ _ _ _ hl]
+      have hr : r ≠ r' := by intro e; exact h ⟨rfl, e.symm⟩
+      rw [getD_set_ne _ _ _ _ _ hr]
+    · have : c.set o ((c.getD o []).set r v) = c := by
+        apply List.set_eq_of_length_le; omega
+      rw [this]
+  · rw [getD_set_ne _ _ _ _ _ ho]
+
+/-- setting an entry to a non-zero value keeps every non-zero entry non-zero -/
+theorem cntAt_cntSet_pos (c : List (List Nat)) (o r v o' r' : Nat) (hv : v ≠ 0)
+    (h : cntAt c o' r' ≠ 0) : cntAt (cntSet c o r v) o' r' ≠ 0 := by
+  by_cases hh : o' = o ∧ r' = r
+  · rw [hh.1, hh.2]
+    rw [hh.1, hh.2] at h
+    unfold cntAt cntSet at *
+    by_cases hl : o < c.length
+    · rw [getD_set_eq _ _ _ _ hl]
+      by_cases hr : r < (c.getD o []).length
+      · rw [getD_set_eq _ _ _ _ hr]; exact hv
+      · rw [List.set_eq_of_length_le (by omega)]; exact h
+    · rw [List.set_eq_of_length_le (by omega)]; exact h
+  · rw [cntAt_cntSet_ne _ _ _ _ _ _ hh]; exact h
+
+theorem cntBump_wf (c : List (List Nat)) (o r : Nat) (fx : Fx) (hw : fx.WF) : cntBump c o r fx = c := by
+  cases fx <;> first | rfl | simp [Fx.WF] at hw
+
+theorem cntBump_length (c : List (List Nat)) (o r : Nat) (fx : Fx) : (cntBump c o r fx).length = c.length := by
+  cases fx <;> try rfl
+  simp only [cntBump]
+  split
+  · rfl
+  · exact cntSet_length ..
+
+theorem cntBump_row_length (c : List (List Nat)) (o r : Nat) (fx : Fx) (o' : Nat) :
+    ((cntBump c o r fx).getD o' []).length = (c.getD o' []).length := by
+  cases fx <;> try rfl
+  simp only [cntBump]
+  split
+  · rfl
+  · exact cntSet_row_length ..
+
+theorem cntAt_cntBump_ne (c : List (List Nat)) (o r : Nat) (fx : Fx) (o' r' : Nat) (h : ¬ (o' = o ∧ r' = r)) :
+    cntAt (cntBump c o r fx) o' r' = cntAt c o' r' := by
+  cases fx <;> try rfl
+  simp only [cntBump]
+  split
+  · rfl
+  · exact cntAt_cntSet_ne _ _ _ _ _ _ h
+
+theorem cntAt_cntBump_pos (c : List (List Nat)) (o r : Nat) (fx : Fx) (o' r' : Nat) (h : cntAt c o' r' ≠ 0) :
+    cntAt (cntBump c o r fx) o' r' ≠ 0 := by
+  cases fx <;> try exact h
+  rename_i x
+  simp only [cntBump]
+  split
+  · exact h
+  · rename_i hx
+    by_cases hh : o' = o ∧ r' = r
+    · apply cntAt_cntSet_pos _ _ _ _ _ _ _ h
+      rw [hh.1, hh.2] at h
+      omega
+    · rw [show (c.set o ((c.getD o []).set r (min (cntAt c o r + x % 16) 255))) = cntSet c o r (min (cntAt c o r + x % 16) 255) from rfl,
+        cntAt_cntSet_ne _ _ _ _ _ _ hh]
+      exact h
+
 theorem cntInc_row_length (c : List (List Nat)) (o r o' : Nat) :
     ((cntInc c o r).getD o' []).length = (c.getD o' []).length := by
   unfold cntInc
@@ -140,7 +239,7 @@ theorem cntInc_row_length (c : List (List Nat)) (o r o' : Nat) :
 
 /-- one iteration of the row loop on a fresh row -/
 def visitStep (ord row : Nat) (fx : Fx) (st : ScanSt) : ScanSt :=
-  let st1 := { st with cnt := cntInc st.cnt ord row, osv := 0, anyValid := true }
+  let st1 := { st with cnt := cntBump (cntInc st.cnt ord row) ord row fx, osv := 0, anyValid := true }
   let st2 := applyFx fx st1
   { st2 with rowCount := st2.rowCount + 1,
              trace := { ord := ord, row := row, speed := st2.speed, bpm := st2.bpm,
@@ -182,8 +281,25 @@ theorem applyFx_osv (fx : Fx) (st : ScanSt) : (applyFx fx st).osv = st.osv := by
 theorem applyFx_anyValid (fx : Fx) (st : ScanSt) : (applyFx fx st).anyValid = st.anyValid := by
   cases fx <;> simp [applyFx] ; split <;> rfl
 
-theorem visitStep_cnt (ord row fx st) : (visitStep ord row fx st).cnt = cntInc st.cnt ord row := by
+theorem visitStep_cnt_gen (ord row fx st) :
+    (visitStep ord row fx st).cnt = cntBump (cntInc st.cnt ord row) ord row fx := by
   simp [visitStep, applyFx_cnt]
+theorem visitStep_cnt (ord row fx st) (hw : fx.WF) : (visitStep ord row fx st).cnt = cntInc st.cnt ord row := by
+  rw [visitStep_cnt_gen, cntBump_wf _ _ _ _ hw]
+/-- whatever the effect: lengths are kept, marks are kept, the scanned row is marked -/
+theorem visitStep_cnt_facts (ord row fx st) :
+    (visitStep ord row fx st).cnt.length = st.cnt.length ∧
+    (∀ o, ((visitStep ord row fx st).cnt.getD o []).length = (st.cnt.getD o []).length) ∧
+    (∀ o r, cntAt st.cnt o r ≠ 0 → cntAt (visitStep ord row fx st).cnt o r ≠ 0) ∧
+    (ord < st.cnt.length → row < (st.cnt.getD ord []).length → cntAt (visitStep ord row fx st).cnt ord row ≠ 0) := by
+  rw [visitStep_cnt_gen]
+  refine ⟨by rw [cntBump_length, cntInc_length], fun o => by rw [cntBump_row_length, cntInc_row_length], ?_, ?_⟩
+  · intro o r h
+    apply cntAt_cntBump_pos
+    exact cntAt_cntSet_pos _ _ _ _ _ _ (by omega) h
+  · intro h1 h2
+    apply cntAt_cntBump_pos
+    rw [cntAt_cntInc_eq _ _ _ h1 h2]; omega
 theorem visitStep_ctl (ord row fx st) : (visitStep ord row fx st).ctl = st.ctl := by
   simp [visitStep, applyFx_ctl]
 theorem visitStep_info (ord row fx st) : (visitStep ord row fx st).info = st.info := by
@@ -239,6 +355,7 @@ theorem visitStep_trace_full (ord row : Nat) (fx : Fx) (st : ScanSt) (hw : fx.WF
     simp only [Fx.WF] at hw
     have ht : ¬ t < 20 := by omega
     simp [visitStep, applyFx, fxSpeed, fxBpm, ht]
+  | rowdelay x => simp [Fx.WF] at hw
 
 /-- what the row loop leaves behind after a jump-free stretch of fresh rows -/
 structure RowsDone (ord row : Nat) (fxs : List Fx) (st st' : ScanSt) : Prop where
@@ -288,12 +405,12 @@ theorem scanRows_nojump_app (ord : Nat) (rest : List Fx) : ∀ (fxs : List Fx) (
     have hrs' : (visitStep ord row fx st).rowStart = st.rowStart + rowFrames fx st.speed * tick (fxBpm fx st.bpm) := by
       rw [hrs, scanStep_rowStart _ _ hfx0.2]
     have hlen' : ord < (visitStep ord row fx st).cnt.length := by
-      rw [visitStep_cnt, cntInc_length]; exact hlen
+      rw [visitStep_cnt _ _ _ _ hfx0.2, cntInc_length]; exact hlen
     have hrl' : row + 1 + tl.length ≤ ((visitStep ord row fx st).cnt.getD ord []).length := by
-      rw [visitStep_cnt, cntInc_row_length]; omega
+      rw [visitStep_cnt _ _ _ _ hfx0.2, cntInc_row_length]; omega
     have hfresh' : ∀ r, row + 1 ≤ r → cntAt (visitStep ord row fx st).cnt ord r = 0 := by
       intro r hr
-      rw [visitStep_cnt, cntAt_cntInc_ne _ _ _ _ _ (by omega)]
+      rw [visitStep_cnt _ _ _ _ hfx0.2, cntAt_cntInc_ne _ _ _ _ _ (by omega)]
       exact hfresh r (by omega)
     have hb' : 20 ≤ (visitStep ord row fx st).bpm := by rw [hbp']; exact fxBpm_ge _ _ hb
     obtain ⟨st', he, hd⟩ := ih (row + 1) (visitStep ord row fx st)
@@ -308,17 +425,17 @@ theorem scanRows_nojump_app (ord : Nat) (rest : List Fx) : ∀ (fxs : List Fx) (
     · rw [hd.ctl, visitStep_ctl]
     · rw [hd.info, visitStep_info]
     · rw [hd.startTime, visitStep_startTime]
-    · rw [hd.cntLen, visitStep_cnt, cntInc_length]
-    · intro o; rw [hd.rowLen, visitStep_cnt, cntInc_row_length]
+    · rw [hd.cntLen, visitStep_cnt _ _ _ _ hfx0.2, cntInc_length]
+    · intro o; rw [hd.rowLen, visitStep_cnt _ _ _ _ hfx0.2, cntInc_row_length]
     · intro o r h
       rw [List.length_cons] at h
-      rw [hd.other o r (by omega), visitStep_cnt, cntAt_cntInc_ne]
+      rw [hd.other o r (by omega), visitStep_cnt _ _ _ _ hfx0.2, cntAt_cntInc_ne]
       omega
     · intro r h1 h2
       rw [List.length_cons] at h2
       by_cases hr : r = row
       · subst hr
-        rw [hd.other ord r (by omega), visitStep_cnt, cntAt_cntInc_eq _ _ _ hlen hrowlt, hf0]
+        rw [hd.other ord r (by omega), visitStep_cnt _ _ _ _ hfx0.2, cntAt_cntInc_eq _ _ _ hlen hrowlt, hf0]
       · exact hd.visited r (by omega) (by omega)
     · rw [hd.trace, visitStep_trace]
       simp [rowSeq]
@@ -518,7 +635,7 @@ def rowEnd (e : PlayEnv) (p : PlaySt) (fx : Fx) : PlaySt :=
            ctime := p.ctime + rowFrames fx p.speed * tick (fxBpm fx p.bpm) }
 
 theorem render_first (e : PlayEnv) (p : PlaySt) (fx : Fx) (hfx : e.fxAt p.ord p.row = fx)
-    (hj : fx.isJump = false) (hfr : p.frame = 0) (hd : p.delay = 0)
+    (hj : fx.isJump = false) (hw : fx.WF) (hfr : p.frame = 0) (hd : p.delay = 0)
     (hne : ¬ (p.ord = e.si.endOrd ∧ p.row = e.si.endRow ∧ p.endPoint = 0)) :
     e.render p = { p with speed := fxSpeed fx p.speed, bpm := fxBpm fx p.bpm, delay := fx.delayOf,
                           endPoint := endAfter e p.ord p.row p.endPoint,
@@ -530,7 +647,10 @@ theorem render_first (e : PlayEnv) (p : PlaySt) (fx : Fx) (hfx : e.fxAt p.ord p.
       simp [h1, this]
     · simp [h1]
   simp only [PlayEnv.render, hfr, if_true, PlayEnv.newRow, hce, hfx]
-  cases fx <;> simp [Fx.isJump] at hj <;> simp [readFx, fxSpeed, fxBpm, Fx.delayOf, hd]
+  cases fx
+  case rowdelay x => exact absurd hw (by simp [Fx.WF])
+  all_goals (simp [Fx.isJump] at hj)
+  all_goals (simp [readFx, fxSpeed, fxBpm, Fx.delayOf, hd])
   split <;> simp [hd]
 
 theorem runN_row (e : PlayEnv) (p : PlaySt) (fx : Fx) (hfx : e.fxAt p.ord p.row = fx)
@@ -540,7 +660,7 @@ theorem runN_row (e : PlayEnv) (p : PlaySt) (fx : Fx) (hfx : e.fxAt p.ord p.row 
     ∃ F, F.length = rowFrames fx p.speed ∧ rowTrace F = [(p.ord, p.row)] ∧
       ticks F = rowFrames fx p.speed * tick (fxBpm fx p.bpm) ∧
       e.runN (rowFrames fx p.speed) p = (e.nextRow (rowEnd e p fx)).map fun p' => (F, p') := by
-  have hr0 := render_first e p fx hfx hj hfr hd hne
+  have hr0 := render_first e p fx hfx hj hw hfr hd hne
   have hN : 1 ≤ rowFrames fx p.speed := by
     have := fxSpeed_pos fx p.speed hs hw
     simp only [rowFrames]
@@ -648,19 +768,20 @@ theorem runN_rows (e : PlayEnv) (ord : Nat) : ∀ (fxs : List Fx) (rest : List F
     (∀ fx ∈ fxs, fx.isJump = false ∧ fx.WF) →
     (ord = e.si.endOrd → ∀ r, row ≤ r → r < row + fxs.length → r ≠ e.si.endRow) →
     p.ord = ord → p.row = row → p.frame = 0 → p.delay = 0 → p.pbreak = false → p.loopCount = 0 → 1 ≤ p.speed →
+    p.rowdelay = 0 →
     ∃ F p', e.runN F.length p = some (F, p') ∧ rowTrace F = rowSeq ord row fxs.length ∧
       ticks F = rowsTime fxs p.speed p.bpm ∧
       p'.ord = ord ∧ p'.row = row + fxs.length ∧ p'.frame = 0 ∧ p'.delay = 0 ∧ p'.pbreak = false ∧
       p'.loopCount = 0 ∧ p'.speed = rowsSpeed fxs p.speed ∧ p'.bpm = rowsBpm fxs p.bpm ∧
-      p'.time = p.time + rowsTime fxs p.speed p.bpm ∧ p'.endPoint = p.endPoint := by
+      p'.time = p.time + rowsTime fxs p.speed p.bpm ∧ p'.endPoint = p.endPoint ∧ p'.rowdelay = 0 := by
   intro fxs
   induction fxs with
   | nil =>
-    intro rest row p _ _ _ _ ho hr hf hd hp hl hs
+    intro rest row p _ _ _ _ ho hr hf hd hp hl hs hrd
     exact ⟨[], p, by simp [PlayEnv.runN], by simp [rowTrace, rowSeq], by simp [ticks, rowsTime],
-      ho, by simp [hr], hf, hd, hp, hl, by simp [rowsSpeed], by simp [rowsBpm], by simp [rowsTime], rfl⟩
+      ho, by simp [hr], hf, hd, hp, hl, by simp [rowsSpeed], by simp [rowsBpm], by simp [rowsTime], rfl, hrd⟩
   | cons fx fxs ih =>
-    intro rest row p hdrop hrest hfx hend ho hr hf hd hp hl hs
+    intro rest row p hdrop hrest hfx hend ho hr hf hd hp hl hs hrd
     have hfx0 := hfx fx (by simp)
     obtain ⟨hget, hdrop', hlt⟩ := getD_of_drop _ row fx (fxs ++ rest) Fx.none (by simpa using hdrop)
     have hfxat : e.fxAt p.ord p.row = fx := by rw [ho, hr]; exact hget
@@ -674,10 +795,10 @@ theorem runN_rows (e : PlayEnv) (ord : Nat) : ∀ (fxs : List Fx) (rest : List F
       have h1 : ((e.m.rowsOf (e.m.patOf ord)).drop (row + 1)).length = (fxs ++ rest).length := by rw [hdrop']
       have h2 : 0 < rest.length := by cases rest with | nil => exact absurd rfl hrest | cons _ _ => simp
       simp at h1; omega
-    obtain ⟨p2, hp2⟩ : ∃ p2 : PlaySt, p2 = { rowEnd e p fx with frame := 0, delay := 0, row := row + 1 } := ⟨_, rfl⟩
+    obtain ⟨p2, hp2⟩ : ∃ p2 : PlaySt, p2 = { rowEnd e p fx with frame := 0, delay := 0, row := row + 1, rowdelaySet := false } := ⟨_, rfl⟩
     have hnr : e.nextRow (rowEnd e p fx) = some p2 := by
       have hge : ¬ (row + 1 ≥ (e.m.rowsOf (e.m.patOf ord)).length) := by omega
-      simp only [PlayEnv.nextRow, rowEnd, hp, hr, ho, hge, if_false, Bool.false_eq_true, hp2]
+      simp only [PlayEnv.nextRow, rowEnd, hp, hr, ho, hrd, hge, if_false, if_true, Bool.false_eq_true, hp2]
     rw [hnr] at hrun1
     simp only [Option.map_some] at hrun1
     have hea : endAfter e p.ord p.row p.endPoint = p.endPoint := by
@@ -687,16 +808,16 @@ theorem runN_rows (e : PlayEnv) (ord : Nat) : ∀ (fxs : List Fx) (rest : List F
         exact hend h.1 row (Nat.le_refl _) (by simp) h.2
       simp [this]
     have hs2 : 1 ≤ p2.speed := by rw [hp2]; exact fxSpeed_pos fx p.speed hs hfx0.2
-    obtain ⟨F2, p', hrun2, htr2, htk2, h1, h2, h3, h4, h5, h6, h7, h8, h9, h10⟩ := ih rest (row + 1) p2 hdrop' hrest
+    obtain ⟨F2, p', hrun2, htr2, htk2, h1, h2, h3, h4, h5, h6, h7, h8, h9, h10, h11⟩ := ih rest (row + 1) p2 hdrop' hrest
       (fun f hf => hfx f (by simp [hf]))
       (fun ho' r h1 h2 => hend ho' r (by omega) (by simp; omega))
       (by rw [hp2]; exact ho) (by rw [hp2]) (by rw [hp2]) (by rw [hp2]) (by rw [hp2]; exact hp)
-      (by rw [hp2]; exact hl) hs2
+      (by rw [hp2]; exact hl) hs2 (by rw [hp2]; exact hrd)
     have hp2s : p2.speed = fxSpeed fx p.speed := by rw [hp2]; rfl
     have hp2b : p2.bpm = fxBpm fx p.bpm := by rw [hp2]; rfl
     have hp2t : p2.time = p.time + rowFrames fx p.speed * tick (fxBpm fx p.bpm) := by rw [hp2]; rfl
     have hp2e : p2.endPoint = p.endPoint := by rw [hp2]; exact hea
-    refine ⟨F1 ++ F2, p', ?_, ?_, ?_, h1, ?_, h3, h4, h5, h6, ?_, ?_, ?_, ?_⟩
+    refine ⟨F1 ++ F2, p', ?_, ?_, ?_, h1, ?_, h3, h4, h5, h6, ?_, ?_, ?_, ?_, h11⟩
     · rw [List.length_append, hlen1]
       have := runN_add e (rowFrames fx p.speed) p F1 p2 F2.length F2 p' hrun1 hrun2
       exact this
